@@ -35,7 +35,7 @@ impl PanicRec {
     /// "rust" (std/alloc/core), "harness" (a bug in the simulator itself)
     pub fn origin(&self) -> &'static str {
         let f = self.file();
-        if self.msg().starts_with("dsim: sink panic") || self.msg().starts_with("dsim: iterator panic") {
+        if self.msg().starts_with("dsim: sink panic") || self.msg().starts_with("dsim: iterator panic") || self.msg().starts_with("dsim: rng panic") {
             "dsim"
         } else if f.starts_with("/repo/") {
             "dashu"
